@@ -57,7 +57,14 @@ func generateOrd(ids []uint64, t uint32, initiator int, allOrders bool) {
 		return
 	}
 	vsym.Reach("generated")
-	vsym.Assert("G1-all-participants-listed", len(parts) == len(ids))
+	checkConsistent(ctx, c, ids, t, pub, len(parts))
+}
+
+// checkConsistent: after a generation reported as successful every participant holds the account, all
+// of them hold shares of ONE key (the returned composite key) with the requested threshold, and every
+// threshold-sized subset signs for it.
+func checkConsistent(ctx context.Context, c *cluster, ids []uint64, t uint32, pub []byte, nparts int) {
+	vsym.Assert("G1-all-participants-listed", nparts == len(ids))
 	var accts []e2wtypes.Account
 	for _, id := range ids {
 		a := c.account(ctx, id, "acc")
@@ -144,6 +151,35 @@ func generateOrd(ids []uint64, t uint32, initiator int, allOrders bool) {
 			vsym.Reach("fewer-than-threshold-shares-do-not-determine-the-signature")
 		}
 	}
+}
+
+// GenerateAfterPartialCommit: a first attempt whose commit requests to some participants are lost, so
+// that the account exists on some instances only; the sessions expire; a second attempt for the same
+// name.  It may be refused, but if it is reported as successful the participants hold one consistent key.
+func GenerateAfterPartialCommit() {
+	vsym.ForbidCrash()
+	ctx := context.Background()
+	ids := idsSmall[:3]
+	c := newCluster(ctx, ids, 70*time.Second)
+	mask := 1 + vsym.Choose("commit-lost-to", 6) // a non-empty proper subset of the three participants
+	c.loseCommit = map[uint64]bool{}
+	for k, id := range ids {
+		if mask&(1<<k) != 0 {
+			c.loseCommit[id] = true
+		}
+	}
+	_, _, err1 := c.nodes[ids[0]].proc.OnGenerate(ctx, hc.Creds(), walletName+"/acc", passphrase, 2, 3)
+	vsym.Assert("R0-lost-commit-fails-the-generation", err1 != nil)
+	c.loseCommit = nil
+	vsym.AdvanceClock(int64(71 * time.Second))
+	initiator := vsym.Choose("retry-initiator", 3)
+	pub, parts, err := c.nodes[ids[initiator]].proc.OnGenerate(ctx, hc.Creds(), walletName+"/acc", passphrase, 2, 3)
+	if err != nil {
+		vsym.Reach("retry-refused")
+		return
+	}
+	vsym.Reach("retry-succeeded")
+	checkConsistent(ctx, c, ids, 2, pub, len(parts))
 }
 
 var (
